@@ -202,25 +202,28 @@ theorem dot_pointwise (n : Nat) (a b c d : List K) (ha : a.length = n) (hb : b.l
       rw [dot_cons, dot_cons, h0, ih a b c d (by simpa using ha) (by simpa using hb) (by simpa using hc) (by simpa using hd)
         (fun i hi => by have := h (i + 1) (by omega); simpa using this)]
 
-/-- hypotheses on the maps (both instantiations of the same user code, on dual numbers and on the base field) -/
-structure MapsOK (cD : Config (Dual K)) (cR : Config K) : Prop where
+/-- hypotheses on the maps (both instantiations of the same user code, on dual numbers and on the base field);
+`tdom`: the set of unconstrained duration variables on which the time map is claimed differentiable (e.g. away from a pole) -/
+structure MapsOK (tdom : K → Prop) (cD : Config (Dual K)) (cR : Config K) : Prop where
   order : cD.order = cR.order
   dim : cD.dim = cR.dim
   flags : cD.flags = cR.flags
   n : cD.n = cR.n
   udim : cD.sm.udim = cR.sm.udim
-  tmRe : ∀ τ : Dual K, (cD.tm.toTime τ).re = cR.tm.toTime τ.re
-  tmDu : ∀ (τ : Dual K) (g : K), g * (cD.tm.toTime τ).du = cR.tm.backward τ.re (cR.tm.toTime τ.re) g * τ.du
+  tmRe : ∀ τ : Dual K, tdom τ.re → (cD.tm.toTime τ).re = cR.tm.toTime τ.re
+  tmDu : ∀ (τ : Dual K) (g : K), tdom τ.re →
+      g * (cD.tm.toTime τ).du = cR.tm.backward τ.re (cR.tm.toTime τ.re) g * τ.du
   smRe : ∀ (ξ : Vec (Dual K)) (i : Nat), vre (cD.sm.toPhysical ξ i) = cR.sm.toPhysical (vre ξ) i
   smDu : ∀ (ξ : Vec (Dual K)) (i : Nat) (g : Vec K), ξ.length = cR.sm.udim i →
       dot g (vdu (cD.sm.toPhysical ξ i)) = dot (cR.sm.backwardGrad (vre ξ) g i) (vdu ξ)
   smLen : ∀ (ξ : Vec K) (i : Nat) (g : Vec K), ξ.length = cR.sm.udim i → g.length = cR.dim →
       (cR.sm.backwardGrad ξ g i).length = cR.sm.udim i
 
-theorem layout_eq (cD : Config (Dual K)) (cR : Config K) (hm : MapsOK cD cR) : cD.layout = cR.layout := by
+theorem layout_eq {tdom : K → Prop} (cD : Config (Dual K)) (cR : Config K) (hm : MapsOK tdom cD cR) : cD.layout = cR.layout := by
   simp only [Config.layout, hm.order, hm.dim, hm.flags, hm.n, hm.udim]
 
-theorem times_pair (cD : Config (Dual K)) (cR : Config K) (hm : MapsOK cD cR) (x : List (Dual K)) (hx : cR.n ≤ x.length)
+theorem times_pair {tdom : K → Prop} (cD : Config (Dual K)) (cR : Config K) (hm : MapsOK tdom cD cR) (x : List (Dual K)) (hx : cR.n ≤ x.length)
+    (hdom : ∀ i, i < cR.n → tdom (x.getD i (lit 0)).re)
     (gt : List K) (hg : gt.length = cR.n) :
     dot gt (((List.range cR.n).map (fun i => cD.tm.toTime (x.getD i (lit 0)))).map Dual.du)
       = dot ((List.range cR.n).map (fun i => cR.tm.backward ((x.map Dual.re).getD i (lit 0))
@@ -232,7 +235,9 @@ theorem times_pair (cD : Config (Dual K)) (cR : Config K) (hm : MapsOK cD cR) (x
   have hix : i < x.length := by omega
   simp only [List.getD_eq_getElem?_getD, List.getElem?_map, List.getElem?_range hi, Option.map_some, Option.getD_some,
     List.getElem?_eq_getElem hix, segment, List.drop_zero, List.getElem?_take_of_lt hi]
-  have := hm.tmDu x[i] (gt[i]?.getD 0)
+  have hd := hdom i hi
+  simp only [List.getD_eq_getElem?_getD, List.getElem?_eq_getElem hix, Option.getD_some] at hd
+  have := hm.tmDu x[i] (gt[i]?.getD 0) hd
   simp only [lit_eq, Nat.cast_zero] at this ⊢
   exact this
 
@@ -253,7 +258,8 @@ abbrev gpOf (n : Nat) (g : GradsND K) (i : Nat) : Vec K := pointGradOf n g i
 abbrev bgOf (g : GradsND K) : DBlock → Vec K := blockGradOf g
 
 /-- **C07: gradient assembly is the adjoint of decoding** -/
-theorem assemble_adjoint (cD : Config (Dual K)) (cR : Config K) (hm : MapsOK cD cR) (x : List (Dual K)) (g : GradsND K)
+theorem assemble_adjoint {tdom : K → Prop} (cD : Config (Dual K)) (cR : Config K) (hm : MapsOK tdom cD cR) (x : List (Dual K))
+    (hdom : ∀ i, i < cR.n → tdom (x.getD i (lit 0)).re) (g : GradsND K)
     (hn : 0 < cR.n) (hx : x.length = cR.layout.total) (hgt : g.times.length = cR.n)
     (hbg : ∀ b ∈ derivBlocks cR.order cR.flags, (bgOf g b).length = cR.dim)
     (hpg : ∀ i, i ≤ cR.n → (gpOf cR.n g i).length = cR.dim)
@@ -312,7 +318,7 @@ theorem assemble_adjoint (cD : Config (Dual K)) (cR : Config K) (hm : MapsOK cD 
   simp only [List.map_cons, List.sum_cons, List.map_append, List.sum_append, List.map_map]
   -- durations
   have h1 : dot g.times ((decode cD x).times.map Dual.du) = dot tg (segment dx 0 tg.length) := by
-    have := times_pair cD cR hm x (by rw [hx]; have := (packedL_bounds doff 0 cR.n vars hpk).1; omega) g.times hgt
+    have := times_pair cD cR hm x (by rw [hx]; have := (packedL_bounds doff 0 cR.n vars hpk).1; omega) hdom g.times hgt
     rw [htl, htg, hdx, hxR]
     simp only [decode, hm.n]
     convert this using 2
